@@ -17,11 +17,15 @@ Reading guide
     exhaustively over the BMP by regenerate, `lf_free` proves the byte-set part from the tabulated sets).
 -/
 import EzdxfVerif.Model.Encoding
+import EzdxfVerif.Model.EncodingExt
 import EzdxfVerif.Gen.EncodingTables
+import EzdxfVerif.Gen.CjkTables
+import EzdxfVerif.Lemmas.EncodingCjk
 
 namespace EzdxfVerif.Props.C09
 open EzdxfVerif.Encoding
 open EzdxfVerif.Gen.EncodingTables
+open EzdxfVerif.Gen.CjkTables
 
 /-! hex digits -/
 private theorem hexDigit_range (d : Nat) (hd : d < 16) :
@@ -1258,6 +1262,1031 @@ theorem utf8_bytes_roundtrip (f : Fmt) (hf : Delegates f) (b : Bytes) (hb : ∀ 
   rw [h.2] at this
   exact this
 
+/-! ## Session 3: every supported code page, without codec hypotheses -/
+
+private theorem roundtrips_of_lawful (c : Codec) (good : Nat → Prop) (L : Lawful c good) (s : Str)
+    (hs : ∀ x ∈ s, x ≤ 0xFFFF ∧ isEscSurrogate x = false ∧ ((c.enc x).isSome → good x))
+    (hn : hasDxfUnicode s = false) : RoundTrips c handlerFmt s := by
+  rw [source_format_fixed]
+  obtain ⟨b, hb1, hb2⟩ := escape_roundtrip c good L s hs hn
+  refine ⟨b, hb1, hb2, ?_, ?_⟩
+  · intro hm
+    obtain ⟨b', hb1', hb2'⟩ := recover_roundtrip c good L s hs hn hm
+    rw [hb1] at hb1'; cases hb1'; exact hb2'
+  · intro hc
+    obtain ⟨b', hb1', hb2'⟩ := encode_clean c good L s (fun x hx => ⟨(hs x hx).1, (hs x hx).2.1⟩) hc
+    rw [hb1] at hb1'; cases hb1'; exact hb2'
+
+private theorem sbcs_roundtrips (t : List Nat) (h : sbcsTableOk t = true) (s : Str) (hp : Plain s) :
+    RoundTrips (sbcsCodec t) handlerFmt s := by
+  refine roundtrips_of_lawful _ _ (sbcs_lawful t h) s ?_ hp.2
+  intro x hx
+  refine ⟨(hp.1 x hx).1, (hp.1 x hx).2, ?_⟩
+  intro he
+  simp only [sbcsCodec] at he
+  split at he
+  · cases he
+  · rename_i hne
+    refine ⟨idxOf_some_mem x t ?_, hne⟩
+    cases hi : idxOf x t <;> simp [hi] at he ⊢
+
+/-- the ten single-byte code pages by name: every plain string round-trips, no codec hypothesis
+    (decoding tables regenerated from CPython; handler format of the current source) -/
+theorem escape_roundtrip_cp874 (s : Str) (h : Plain s) : RoundTrips (sbcsCodec cp874Table) handlerFmt s :=
+  sbcs_roundtrips _ (by decide +kernel) s h
+theorem escape_roundtrip_cp1250 (s : Str) (h : Plain s) : RoundTrips (sbcsCodec cp1250Table) handlerFmt s :=
+  sbcs_roundtrips _ (by decide +kernel) s h
+theorem escape_roundtrip_cp1251 (s : Str) (h : Plain s) : RoundTrips (sbcsCodec cp1251Table) handlerFmt s :=
+  sbcs_roundtrips _ (by decide +kernel) s h
+theorem escape_roundtrip_cp1252 (s : Str) (h : Plain s) : RoundTrips (sbcsCodec cp1252Table) handlerFmt s :=
+  sbcs_roundtrips _ (by decide +kernel) s h
+theorem escape_roundtrip_cp1253 (s : Str) (h : Plain s) : RoundTrips (sbcsCodec cp1253Table) handlerFmt s :=
+  sbcs_roundtrips _ (by decide +kernel) s h
+theorem escape_roundtrip_cp1254 (s : Str) (h : Plain s) : RoundTrips (sbcsCodec cp1254Table) handlerFmt s :=
+  sbcs_roundtrips _ (by decide +kernel) s h
+theorem escape_roundtrip_cp1255 (s : Str) (h : Plain s) : RoundTrips (sbcsCodec cp1255Table) handlerFmt s :=
+  sbcs_roundtrips _ (by decide +kernel) s h
+theorem escape_roundtrip_cp1256 (s : Str) (h : Plain s) : RoundTrips (sbcsCodec cp1256Table) handlerFmt s :=
+  sbcs_roundtrips _ (by decide +kernel) s h
+theorem escape_roundtrip_cp1257 (s : Str) (h : Plain s) : RoundTrips (sbcsCodec cp1257Table) handlerFmt s :=
+  sbcs_roundtrips _ (by decide +kernel) s h
+theorem escape_roundtrip_cp1258 (s : Str) (h : Plain s) : RoundTrips (sbcsCodec cp1258Table) handlerFmt s :=
+  sbcs_roundtrips _ (by decide +kernel) s h
+
+/-! ### single-byte tables: injectivity, bytes -> str -> bytes, agreement with the tabulated encoder -/
+
+private theorem sbcs_cert_all : sbcsTables.all (fun p => sbcsCertB p.2) = true := by decide +kernel
+
+private theorem idxOf_append (x : Nat) (a r : List Nat) (h : ∀ y ∈ a, y ≠ x) :
+    idxOf x (a ++ r) = (idxOf x r).map (· + a.length) := by
+  induction a with
+  | nil => cases h' : idxOf x r <;> simp [h']
+  | cons y a ih =>
+    have hy : ¬ (y = x) := h y (by simp)
+    simp only [List.cons_append, idxOf, hy, if_false, ih (fun z hz => h z (by simp [hz])), List.length_cons]
+    cases idxOf x r <;> simp [Nat.add_assoc]
+
+private theorem nodup_idxOf (r : List Nat) : ∀ i v, nodupDefB r = true → r[i]? = some v → v ≠ undef →
+    idxOf v r = some i := by
+  induction r with
+  | nil => intro i v _ h; simp at h
+  | cons a r ih =>
+    intro i v hn hi hv
+    simp only [nodupDefB, Bool.and_eq_true, Bool.or_eq_true, List.all_eq_true, Bool.not_eq_true'] at hn
+    cases i with
+    | zero =>
+      simp only [List.getElem?_cons_zero, Option.some.injEq] at hi
+      simp [idxOf, hi]
+    | succ j =>
+      simp only [List.getElem?_cons_succ] at hi
+      have hmem : v ∈ r := List.mem_of_getElem? hi
+      have hne : ¬ (a = v) := by
+        rcases hn.1 with h | h
+        · intro hav; rw [hav] at h; exact hv (Nat.eq_of_beq_eq_true h)
+        · intro hav
+          have := h v hmem
+          rw [hav] at this
+          simp at this
+      simp [idxOf, hne, ih j v hn.2 hi hv]
+
+private theorem cert_parts (t : List Nat) (h : sbcsCertB t = true) :
+    t.length = 256 ∧ sbcsTableOk t = true ∧ (∀ v ∈ t.drop 128, 128 ≤ v) ∧ nodupDefB (t.drop 128) = true
+      ∧ (∀ v ∈ t, isEscSurrogate v = false) := by
+  simp only [sbcsCertB, Bool.and_eq_true, List.all_eq_true, Nat.ble_eq, Bool.not_eq_true'] at h
+  obtain ⟨⟨⟨⟨h1, h2⟩, h3⟩, h4⟩, h5⟩ := h
+  exact ⟨Nat.eq_of_beq_eq_true h1, h2, h3, h4, h5⟩
+
+/-- in a certified table the first position of a defined value is its only position -/
+private theorem cert_idxOf (t : List Nat) (h : sbcsCertB t = true) (i v : Nat) (hi : t[i]? = some v) (hv : v ≠ undef) :
+    idxOf v t = some i := by
+  obtain ⟨hlen, hok, hup, hnd, _⟩ := cert_parts t h
+  have hid := sbcsTableOk_ascii t hok
+  by_cases hlt : i < 128
+  · have := hid i hlt
+    rw [this] at hi
+    cases hi
+    exact idxOf_ascii t hid i hlt
+  · have hsplit : t = t.take 128 ++ t.drop 128 := (List.take_append_drop 128 t).symm
+    have hd : (t.drop 128)[i - 128]? = some v := by
+      rw [List.getElem?_drop]
+      have : 128 + (i - 128) = i := by omega
+      rw [this]; exact hi
+    have hv128 : 128 ≤ v := hup v (List.mem_of_getElem? hd)
+    have htake : t.take 128 = List.range 128 := by simpa [sbcsTableOk] using hok
+    have hpre : ∀ y ∈ t.take 128, y ≠ v := by
+      intro y hy
+      rw [htake, List.mem_range] at hy
+      omega
+    rw [hsplit, idxOf_append v _ _ hpre, nodup_idxOf _ _ _ hnd hd hv]
+    have : (t.take 128).length = 128 := by rw [htake]; simp
+    simp only [Option.map_some, this, Option.some.injEq]
+    omega
+
+/-- the regenerated decoding tables are injective on their defined range -/
+theorem sbcs_tables_injective : ∀ p ∈ sbcsTables, ∀ (i j v : Nat), p.2[i]? = some v → p.2[j]? = some v → v ≠ undef → i = j := by
+  intro p hp i j v hi hj hv
+  have hc := List.all_eq_true.mp sbcs_cert_all p hp
+  have h1 := cert_idxOf p.2 hc i v hi hv
+  have h2 := cert_idxOf p.2 hc j v hj hv
+  rw [h1] at h2
+  exact Option.some.inj h2
+
+/-- encode ∘ decode = id on every defined byte of the ten tables -/
+theorem sbcs_encode_decode_byte : ∀ p ∈ sbcsTables, ∀ (y v : Nat), p.2[y]? = some v → v ≠ undef →
+    (sbcsCodec p.2).dec [y] = [v] ∧ (sbcsCodec p.2).enc v = some [y] := by
+  intro p hp y v hy hv
+  have hc := List.all_eq_true.mp sbcs_cert_all p hp
+  constructor
+  · simp [sbcsCodec, hy, hv]
+  · simp [sbcsCodec, hv, cert_idxOf p.2 hc y v hy hv]
+
+private theorem sbcs_dec_raw (t : List Nat) (h : sbcsCertB t = true) (b : Bytes) (hb : ∀ y ∈ b, y < 256) :
+    (∀ x ∈ (sbcsCodec t).dec b, ((sbcsCodec t).enc x).isSome ∨ isEscSurrogate x = true)
+      ∧ rawBytes (sbcsCodec t) ((sbcsCodec t).dec b) = b := by
+  obtain ⟨hlen, hok, _, _, hsur⟩ := cert_parts t h
+  have hid := sbcsTableOk_ascii t hok
+  induction b with
+  | nil => simp [sbcsCodec, rawBytes]
+  | cons y r ih =>
+    have hy : y < 256 := hb y (by simp)
+    have ih' := ih (fun z hz => hb z (by simp [hz]))
+    have hlt : y < t.length := by omega
+    have hget : t[y]? = some t[y] := List.getElem?_eq_getElem hlt
+    have hdec : (sbcsCodec t).dec (y :: r)
+        = (if t[y] = undef then 0xDC00 + y else t[y]) :: (sbcsCodec t).dec r := by
+      simp [sbcsCodec, hget]
+    rw [hdec]
+    by_cases hu : t[y] = undef
+    · -- undefined byte: escaped as U+DC00+y, written back as the byte
+      simp only [hu, if_true]
+      have hy128 : 128 ≤ y := by
+        rcases Nat.lt_or_ge y 128 with hl | hl
+        · have := hid y hl
+          rw [hget, hu] at this
+          have : undef = y := Option.some.inj this
+          unfold undef at this; omega
+        · exact hl
+      have hs : isEscSurrogate (0xDC00 + y) = true := by simp [isEscSurrogate]; omega
+      have hnone : (sbcsCodec t).enc (0xDC00 + y) = none := by
+        have hne : ¬ (0xDC00 + y = undef) := by unfold undef; omega
+        cases hi : idxOf (0xDC00 + y) t with
+        | none => simp [sbcsCodec, hne, hi]
+        | some i =>
+          exfalso
+          have := idxOf_spec _ t i hi
+          have := hsur _ (List.mem_of_getElem? this)
+          rw [hs] at this; cases this
+      refine ⟨?_, ?_⟩
+      · intro x hx
+        rcases List.mem_cons.mp hx with rfl | hx
+        · right; exact hs
+        · exact ih'.1 x hx
+      · have e : rawBytes (sbcsCodec t) ((0xDC00 + y) :: (sbcsCodec t).dec r)
+            = [y] ++ rawBytes (sbcsCodec t) ((sbcsCodec t).dec r) := by
+          simp [rawBytes, List.flatMap_cons, hnone]
+        rw [e, ih'.2]; rfl
+    · simp only [hu, if_false]
+      have henc : (sbcsCodec t).enc t[y] = some [y] := by
+        simp [sbcsCodec, hu, cert_idxOf t h y t[y] hget hu]
+      refine ⟨?_, ?_⟩
+      · intro x hx
+        rcases List.mem_cons.mp hx with rfl | hx
+        · left; simp [henc]
+        · exact ih'.1 x hx
+      · have e : rawBytes (sbcsCodec t) (t[y] :: (sbcsCodec t).dec r)
+            = [y] ++ rawBytes (sbcsCodec t) ((sbcsCodec t).dec r) := by
+          simp [rawBytes, List.flatMap_cons, henc]
+        rw [e, ih'.2]; rfl
+
+/-- bytes -> str -> bytes: any byte string read with a single-byte code page and errors="surrogateescape" is written
+    back unchanged (defined bytes by injectivity of the table, undefined ones through U+DC80..DCFF), both handler formats -/
+theorem sbcs_bytes_roundtrip : ∀ p ∈ sbcsTables, ∀ (f : Fmt), Delegates f → ∀ b : Bytes, (∀ y ∈ b, y < 256) →
+    encode (sbcsCodec p.2) f ((sbcsCodec p.2).dec b) = .ok b := by
+  intro p hp f hf b hb
+  have hc := List.all_eq_true.mp sbcs_cert_all p hp
+  have h := sbcs_dec_raw p.2 hc b hb
+  have := encode_surrogate_passthrough (sbcsCodec p.2) f hf _ h.1
+  rw [h.2] at this
+  exact this
+
+private theorem sbcs_agree_all : sbcsEncoders.all (fun p => sbcsCertB p.1 && sbcsEncAgreesB p.1 p.2) = true := by
+  decide +kernel
+
+private theorem mem_definedPairs (t : List Nat) (x b : Nat) :
+    (x, b) ∈ definedPairs t ↔ (t[b]? = some x ∧ x ≠ undef) := by
+  simp only [definedPairs, List.mem_filter, List.mem_zipIdx_iff_getElem?, Bool.not_eq_true']
+  constructor
+  · rintro ⟨h1, h2⟩
+    refine ⟨h1, ?_⟩
+    intro hx; rw [hx] at h2; simp at h2
+  · rintro ⟨h1, h2⟩
+    refine ⟨h1, ?_⟩
+    cases hb : Nat.beq x undef with
+    | false => rfl
+    | true => exact absurd (Nat.eq_of_beq_eq_true hb) h2
+
+/-- the model encoder (first position in the decoding table) IS the encoder tabulated from CPython on every code point:
+    `chr(x).encode(cp)` = `[b]` exactly for the listed pairs, an encode error everywhere else -/
+theorem sbcs_encoder_tables_agree : ∀ p ∈ sbcsEncoders, ∀ x,
+    (sbcsCodec p.1).enc x = (p.2.find? (fun q => q.1 = x)).map (fun q => [q.2]) := by
+  intro p hp x
+  have hb := List.all_eq_true.mp sbcs_agree_all p hp
+  simp only [Bool.and_eq_true] at hb
+  obtain ⟨hc, ha⟩ := hb
+  have he : definedPairs p.1 = p.2 := by simpa [sbcsEncAgreesB] using ha
+  cases hf : p.2.find? (fun q => q.1 = x) with
+  | some q =>
+    have hq : q.1 = x := by simpa using List.find?_some hf
+    have hmem : q ∈ definedPairs p.1 := by rw [he]; exact List.mem_of_find?_eq_some hf
+    obtain ⟨h1, h2⟩ := (mem_definedPairs p.1 q.1 q.2).mp hmem
+    rw [hq] at h1 h2
+    simp [sbcsCodec, h2, cert_idxOf p.1 hc q.2 x h1 h2]
+  | none =>
+    simp only [Option.map_none]
+    by_cases hx : x = undef
+    · simp [sbcsCodec, hx]
+    · cases hi : idxOf x p.1 with
+      | none => simp [sbcsCodec, hx, hi]
+      | some i =>
+        exfalso
+        have hget := idxOf_spec x p.1 i hi
+        have hmem : (x, i) ∈ p.2 := by rw [← he]; exact (mem_definedPairs p.1 x i).mpr ⟨hget, hx⟩
+        have := List.find?_eq_none.mp hf (x, i) hmem
+        simp at this
+
+/-! ### the four double-byte code pages: laws proved from the complete regenerated tables -/
+
+/-- cp932, gbk, cp949, cp950 satisfy the codec laws (no longer hypotheses): the decoder inverts the concatenated
+    encoding of every string of faithfully encoded characters - although trail bytes may be 0x5C `\`, 0x40..0x7E -,
+    printable ASCII encodes to itself, NUL/LF/CR bytes encode only themselves -/
+theorem dbcs_tables_lawful : ∀ T ∈ dbcsTabs, Lawful (dbcsCodec T) (dbcsGood T) :=
+  fun T hT => Lemmas.EncodingCjk.dbcs_lawful T (Lemmas.EncodingCjk.dbcs_tabs_cert T hT)
+
+private theorem dbcs_good_of_not_lossy (T : DbcsTab) (x : Nat) (hx : x ∉ lossyCps T)
+    (he : ((dbcsCodec T).enc x).isSome) : dbcsGood T x := by
+  unfold dbcsGood
+  cases hg : tabEncKey T.encGood x with
+  | some _ => rfl
+  | none =>
+    exfalso
+    simp only [dbcsCodec, dbcsEncWith, hg] at he
+    cases hl : tabEncKey T.encLossy x with
+    | none => simp [hl] at he
+    | some k =>
+      obtain ⟨e, hmem, hcp, _⟩ := Lemmas.EncodingCjk.tabEncKey_some _ _ _ hl
+      exact hx (by simp only [lossyCps, List.mem_map]; exact ⟨e, hmem, hcp⟩)
+
+private theorem dbcs_roundtrips (T : DbcsTab) (hT : T ∈ dbcsTabs) (s : Str) (hp : Plain s)
+    (hl : ∀ x ∈ s, x ∉ lossyCps T) : RoundTrips (dbcsCodec T) handlerFmt s :=
+  roundtrips_of_lawful _ _ (dbcs_tables_lawful T hT) s
+    (fun x hx => ⟨(hp.1 x hx).1, (hp.1 x hx).2, dbcs_good_of_not_lossy T x (hl x hx)⟩) hp.2
+
+/-- every plain string without the listed best-fit characters round-trips under every double-byte code page -/
+theorem escape_roundtrip_double_byte_pages : ∀ T ∈ dbcsTabs, ∀ s : Str, Plain s → (∀ x ∈ s, x ∉ lossyCps T) →
+    RoundTrips (dbcsCodec T) handlerFmt s :=
+  fun T hT s hp hl => dbcs_roundtrips T hT s hp hl
+
+theorem escape_roundtrip_cp932 (s : Str) (h : Plain s) (hl : ∀ x ∈ s, x ∉ lossyCps cp932Tab) :
+    RoundTrips (dbcsCodec cp932Tab) handlerFmt s := dbcs_roundtrips _ (by simp [dbcsTabs]) s h hl
+theorem escape_roundtrip_gbk (s : Str) (h : Plain s) (hl : ∀ x ∈ s, x ∉ lossyCps gbkTab) :
+    RoundTrips (dbcsCodec gbkTab) handlerFmt s := dbcs_roundtrips _ (by simp [dbcsTabs]) s h hl
+theorem escape_roundtrip_cp949 (s : Str) (h : Plain s) (hl : ∀ x ∈ s, x ∉ lossyCps cp949Tab) :
+    RoundTrips (dbcsCodec cp949Tab) handlerFmt s := dbcs_roundtrips _ (by simp [dbcsTabs]) s h hl
+theorem escape_roundtrip_cp950 (s : Str) (h : Plain s) (hl : ∀ x ∈ s, x ∉ lossyCps cp950Tab) :
+    RoundTrips (dbcsCodec cp950Tab) handlerFmt s := dbcs_roundtrips _ (by simp [dbcsTabs]) s h hl
+
+/-- the best-fit characters are exactly the recorded known finding F15; gbk and cp949 have none -/
+theorem lossy_characters_listed :
+    lossyCps cp932Tab = [0x301C, 0x2016, 0x2212, 0xA2, 0xA3, 0xAC]
+    ∧ lossyCps gbkTab = [] ∧ lossyCps cp949Tab = []
+    ∧ lossyCps cp950Tab = [0x2022, 0xFF64, 0x203E, 0x223C, 0x2641, 0x2609, 0xA5, 0xA2, 0xA3] := by decide +kernel
+
+/-- every entry of the source's code page dict has a model codec with a round-trip theorem above -/
+theorem all_code_pages_covered : ∀ p ∈ codepageToEncoding,
+    (∃ q ∈ sbcsTables, q.1 = p.2) ∨ (∃ T ∈ dbcsTabs, T.name = p.2) := by decide +kernel
+
+/-- a trail byte 0x5C (`\`, e.g. cp932 U+8868 = 95 5C) directly followed by `U+XXXX` is not an escape: the file
+    contains the bytes `\U+XXXX`, the readers decode the code page first and return the text unchanged -/
+theorem trail_backslash_is_not_an_escape : ∀ T ∈ dbcsTabs, ∀ x a b c d : Nat, dbcsGood T x → x ≠ 92 →
+    isUpperHex a = true → isUpperHex b = true → isUpperHex c = true → isUpperHex d = true →
+    decodeDxfUnicode ((dbcsCodec T).dec (encAll (dbcsCodec T) [x, 85, 43, a, b, c, d])) = [x, 85, 43, a, b, c, d] := by
+  intro T hT x a b c d hx hne ha hb hc hd
+  have L := dbcs_tables_lawful T hT
+  have hg : ∀ y ∈ [x, 85, 43, a, b, c, d], dbcsGood T y := by
+    intro y hy
+    simp only [List.mem_cons, List.not_mem_nil, or_false] at hy
+    have hex : ∀ z, isUpperHex z = true → dbcsGood T z := by
+      intro z hz
+      simp only [isUpperHex, decide_eq_true_eq] at hz
+      exact (L.ascii z (by omega) (by omega)).1
+    rcases hy with rfl | rfl | rfl | rfl | rfl | rfl | rfl
+    · exact hx
+    · exact (L.ascii 85 (by omega) (by omega)).1
+    · exact (L.ascii 43 (by omega) (by omega)).1
+    · exact hex _ ha
+    · exact hex _ hb
+    · exact hex _ hc
+    · exact hex _ hd
+  rw [L.dec_enc _ hg]
+  apply decode_nomatch
+  simp [hasDxfUnicode, matchAt, hne]
+
+/-- writing a text in pieces (one `write()` per tag, as the tag writers do) gives the same bytes as writing it at once -/
+theorem encode_append (c : Codec) (good : Nat → Prop) (L : Lawful c good) (a b : Str)
+    (ha : ∀ x ∈ a, x ≤ 0xFFFF ∧ isEscSurrogate x = false) (hb : ∀ x ∈ b, x ≤ 0xFFFF ∧ isEscSurrogate x = false) :
+    ∃ p q, encode c fixedFmt a = .ok p ∧ encode c fixedFmt b = .ok q ∧ encode c fixedFmt (a ++ b) = .ok (p ++ q) := by
+  refine ⟨_, _, encode_eq_escStr c good L a ha, encode_eq_escStr c good L b hb, ?_⟩
+  rw [encode_eq_escStr c good L (a ++ b) (by
+    intro x hx
+    rcases List.mem_append.mp hx with h | h
+    · exact ha x h
+    · exact hb x h), escStr_append, encAll_append]
+
+/-! ### framing: many values in one file -/
+
+private theorem splitOn_ne_nil (sep : Nat) (l : List Nat) : splitOn sep l ≠ [] := by
+  cases l with
+  | nil => simp [splitOn]
+  | cons x r =>
+    simp only [splitOn]
+    split
+    · simp
+    · split <;> simp
+
+private theorem splitOn_value (sep : Nat) (v rest : List Nat) (hv : sep ∉ v) :
+    splitOn sep (v ++ sep :: rest) = v :: splitOn sep rest := by
+  induction v with
+  | nil =>
+    simp only [List.nil_append, splitOn]
+    cases h : splitOn sep rest with
+    | nil => exact absurd h (splitOn_ne_nil sep rest)
+    | cons p ps => simp
+  | cons a v ih =>
+    have ha : ¬ (a = sep) := fun h => hv (by simp [h])
+    have := ih (fun h => hv (by simp [h]))
+    simp only [List.cons_append, splitOn, this, ha, if_false]
+
+private theorem splitOn_joinSep (sep : Nat) (vs : List (List Nat)) (h : ∀ v ∈ vs, sep ∉ v) :
+    splitOn sep (joinSep sep vs) = vs ++ [[]] := by
+  induction vs with
+  | nil => simp [joinSep, splitOn]
+  | cons v vs ih =>
+    have : joinSep sep (v :: vs) = v ++ sep :: joinSep sep vs := by simp [joinSep, List.flatMap_cons]
+    rw [this, splitOn_value sep v _ (h v (by simp)), ih (fun w hw => h w (by simp [hw]))]
+    rfl
+
+private theorem escStr_joinSep (c : Codec) (sep : Nat) (hsep : (c.enc sep).isSome) (vs : List Str) :
+    escStr c (joinSep sep vs) = joinSep sep (vs.map (escStr c)) := by
+  induction vs with
+  | nil => rfl
+  | cons v vs ih =>
+    have e1 : joinSep sep (v :: vs) = v ++ [sep] ++ joinSep sep vs := by simp [joinSep, List.flatMap_cons]
+    have e2 : joinSep sep ((v :: vs).map (escStr c)) = escStr c v ++ [sep] ++ joinSep sep (vs.map (escStr c)) := by
+      simp [joinSep, List.flatMap_cons]
+    have e3 : escStr c [sep] = [sep] := by simp [escStr, escChar, hsep]
+    rw [e1, e2, escStr_append, escStr_append, ih, e3]
+
+private theorem not_mem_escStr (c : Codec) (sep : Nat) (hsep : sep < 32) (v : Str) (hv : sep ∉ v) : sep ∉ escStr c v := by
+  intro h
+  simp only [escStr, List.mem_flatMap] at h
+  obtain ⟨x, hx, hxs⟩ := h
+  unfold escChar at hxs
+  split at hxs
+  · simp at hxs; exact hv (hxs ▸ hx)
+  · have := esc4_printable x sep hxs
+    omega
+
+/-- ASCII DXF through the strict reader: the values of a file (one per line; BMP, no U+DC80..DCFF, no LF, no literal
+    escape, no best-fit character) are written, the file is decoded as a whole with the code page, split into lines at
+    the text level, and every line is decoded back to its value - for any codec with the laws that encodes LF as 0x0A
+    (trail bytes cannot be taken for line ends and a line end cannot be swallowed by a lead byte) -/
+theorem strict_reader_lines (c : Codec) (good : Nat → Prop) (L : Lawful c good)
+    (hlf : good 10 ∧ c.enc 10 = some [10]) (vs : List Str)
+    (hs : ∀ v ∈ vs, (∀ x ∈ v, x ≤ 0xFFFF ∧ isEscSurrogate x = false ∧ x ≠ 10 ∧ ((c.enc x).isSome → good x))
+      ∧ hasDxfUnicode v = false) :
+    ∃ b, encode c fixedFmt (joinSep 10 vs) = .ok b ∧ (splitOn 10 (c.dec b)).map decodeDxfUnicode = vs ++ [[]]
+      ∧ ((∀ v ∈ vs, 13 ∉ v) → 13 ∉ c.dec b) := by
+  have hsome : (c.enc 10).isSome := by simp [hlf.2]
+  have hall : ∀ x ∈ joinSep 10 vs, x ≤ 0xFFFF ∧ isEscSurrogate x = false ∧ ((c.enc x).isSome → good x) := by
+    intro x hx
+    simp only [joinSep, List.mem_flatMap, List.mem_append, List.mem_singleton] at hx
+    obtain ⟨v, hv, hxv | hxv⟩ := hx
+    · have := (hs v hv).1 x hxv
+      exact ⟨this.1, this.2.1, this.2.2.2⟩
+    · subst hxv
+      exact ⟨by omega, by decide, fun _ => hlf.1⟩
+  refine ⟨_, encode_eq_escStr c good L _ (fun x hx => ⟨(hall x hx).1, (hall x hx).2.1⟩), ?_⟩
+  rw [L.dec_enc _ (escStr_good c good L _ (fun x hx => (hall x hx).2.2)), escStr_joinSep c 10 hsome vs]
+  refine ⟨?_, ?_⟩
+  · rw [splitOn_joinSep 10 _ (by
+      intro w hw
+      simp only [List.mem_map] at hw
+      obtain ⟨v, hv, rfl⟩ := hw
+      exact not_mem_escStr c 10 (by omega) v (fun h => ((hs v hv).1 10 h).2.2.1 rfl))]
+    simp only [List.map_append, List.map_map, List.map_cons, List.map_nil]
+    congr 1
+    · calc vs.map (decodeDxfUnicode ∘ escStr c) = vs.map id := by
+            apply List.map_congr_left
+            intro v hv
+            exact unescape_escStr c v (hs v hv).2 (fun x hx => ((hs v hv).1 x hx).1)
+        _ = vs := by simp
+    · simp [decodeDxfUnicode, reSplit_nil, decodePart, matchAt]
+  · -- universal newlines: the text mode reader would also break lines at CR; there is none
+    intro hcr hmem
+    simp only [joinSep, List.mem_flatMap, List.mem_map, List.mem_append, List.mem_singleton] at hmem
+    obtain ⟨w, ⟨v, hv, rfl⟩, h | h⟩ := hmem
+    · exact not_mem_escStr c 13 (by omega) v (hcr v hv) h
+    · omega
+
+/-- Binary DXF (`sep = 0`, NUL terminated strings) and the recover reader on ASCII DXF (`sep = 10`): the BYTES are split
+    at the separator first and every piece is decoded on its own - safe because no NUL/LF byte occurs inside an encoded
+    value (double-byte trail bytes are >= 0x40) -/
+theorem byte_split_readers (c : Codec) (good : Nat → Prop) (L : Lawful c good) (sep : Nat) (hsep : sep = 0 ∨ sep = 10)
+    (vs : List Str)
+    (hs : ∀ v ∈ vs, (∀ x ∈ v, x ≤ 0xFFFF ∧ isEscSurrogate x = false ∧ (x ≠ 0 ∧ x ≠ 10 ∧ x ≠ 13)
+      ∧ ((c.enc x).isSome → good x)) ∧ hasDxfUnicode v = false) :
+    ∃ bs : List Bytes, bs.length = vs.length
+      ∧ (∀ i, (h : i < vs.length) → encode c fixedFmt vs[i] = .ok (bs[i]?.getD []))
+      ∧ (splitOn sep (joinSep sep bs)).map (fun p => decodeDxfUnicode (c.dec p)) = vs ++ [[]]
+      ∧ ((∀ v ∈ vs, hasMif v = false) →
+          (splitOn sep (joinSep sep bs)).map (fun p => recoverStr (c.dec p)) = (vs ++ [[]]).map .text) := by
+  refine ⟨vs.map (fun v => encAll c (escStr c v)), by simp, ?_, ?_⟩
+  · intro i hi
+    have hv : vs[i] ∈ vs := List.getElem_mem hi
+    rw [encode_eq_escStr c good L vs[i] (fun x hx => ⟨((hs _ hv).1 x hx).1, ((hs _ hv).1 x hx).2.1⟩)]
+    simp [hi]
+  · have hclean : ∀ w ∈ vs.map (fun v => encAll c (escStr c v)), sep ∉ w := by
+      intro w hw
+      simp only [List.mem_map] at hw
+      obtain ⟨v, hv, rfl⟩ := hw
+      obtain ⟨b, hb1, hb2⟩ := encode_clean c good L v
+        (fun x hx => ⟨((hs v hv).1 x hx).1, ((hs v hv).1 x hx).2.1⟩) (fun x hx => ((hs v hv).1 x hx).2.2.1)
+      rw [encode_eq_escStr c good L v (fun x hx => ⟨((hs v hv).1 x hx).1, ((hs v hv).1 x hx).2.1⟩)] at hb1
+      cases hb1
+      intro hmem
+      have := hb2 sep hmem
+      rcases hsep with h | h <;> omega
+    have hdec : ∀ v ∈ vs, c.dec (encAll c (escStr c v)) = escStr c v := by
+      intro v hv
+      exact L.dec_enc _ (escStr_good c good L v (fun x hx => ((hs v hv).1 x hx).2.2.2))
+    rw [splitOn_joinSep sep _ hclean]
+    have hnil : c.dec [] = [] := by
+      have := L.dec_enc [] (by simp)
+      simpa [encAll] using this
+    constructor
+    · simp only [List.map_append, List.map_map, List.map_cons, List.map_nil]
+      congr 1
+      · calc vs.map ((fun p => decodeDxfUnicode (c.dec p)) ∘ fun v => encAll c (escStr c v)) = vs.map id := by
+              apply List.map_congr_left
+              intro v hv
+              simp only [Function.comp, id]
+              rw [hdec v hv]
+              exact unescape_escStr c v (hs v hv).2 (fun x hx => ((hs v hv).1 x hx).1)
+          _ = vs := by simp
+      · simp [hnil, decodeDxfUnicode, reSplit_nil, decodePart, matchAt]
+    · intro hm
+      simp only [List.map_append, List.map_map, List.map_cons, List.map_nil]
+      congr 1
+      · apply List.map_congr_left
+        intro v hv
+        simp only [Function.comp]
+        obtain ⟨b, hb1, hb2⟩ := recover_roundtrip c good L v
+          (fun x hx => ⟨((hs v hv).1 x hx).1, ((hs v hv).1 x hx).2.1, ((hs v hv).1 x hx).2.2.2⟩) (hs v hv).2 (hm v hv)
+        rw [encode_eq_escStr c good L v (fun x hx => ⟨((hs v hv).1 x hx).1, ((hs v hv).1 x hx).2.1⟩)] at hb1
+        cases hb1
+        exact hb2
+      · simp [hnil, recoverStr, hasDxfUnicode, hasMif]
+
+private theorem crlf_inverse (b : Bytes) (h : 13 ∉ b) : crlfToLf (lfToCrlf b) = b := by
+  induction b with
+  | nil => simp [lfToCrlf, crlfToLf]
+  | cons x r ih =>
+    have hx : x ≠ 13 := fun e => h (by simp [e])
+    have ih' := ih (fun m => h (by simp [m]))
+    by_cases h10 : x = 10
+    · subst h10
+      simp [lfToCrlf, crlfToLf, ih']
+    · simp only [lfToCrlf, h10, if_false]
+      cases hr : lfToCrlf r with
+      | nil =>
+        rw [hr] at ih'
+        simp [crlfToLf] at ih' ⊢
+        exact ih'
+      | cons y t =>
+        rw [hr] at ih'
+        simp only [crlfToLf, hx, false_and, if_false, ih']
+
+/-- a framing byte in the written bytes is the encoding of that very character of the text -/
+private theorem framing_byte_from_text (c : Codec) (good : Nat → Prop) (L : Lawful c good) (s : Str) (y : Nat)
+    (hy : y = 0 ∨ y = 10 ∨ y = 13) (hm : y ∈ encAll c (escStr c s)) : y ∈ s := by
+  simp only [encAll, List.mem_flatMap] at hm
+  obtain ⟨x, hx, hyx⟩ := hm
+  cases hex : c.enc x with
+  | none => simp [hex] at hyx
+  | some bx =>
+    simp only [hex, Option.getD_some] at hyx
+    have hxy := L.clean x bx hex y hyx hy
+    subst hxy
+    simp only [escStr, List.mem_flatMap] at hx
+    obtain ⟨z, hz, hxz⟩ := hx
+    unfold escChar at hxz
+    split at hxz
+    · simp at hxz; exact hxz ▸ hz
+    · have := esc4_printable z x hxz
+      omega
+
+/-- base64 transport and zip reader: `encode_base64` turns LF into CRLF on the encoded bytes, `decode_base64` /
+    `ZipReader.readline` turn CRLF into LF on the bytes before decoding; on the bytes of any text without CR this is the
+    identity - for every codec with the laws, because no CR byte hides in a multi-byte character -/
+theorem byte_level_line_ends (c : Codec) (good : Nat → Prop) (L : Lawful c good) (s : Str)
+    (hs : ∀ x ∈ s, x ≤ 0xFFFF ∧ isEscSurrogate x = false) (hcr : 13 ∉ s) :
+    ∃ b, encode c fixedFmt s = .ok b ∧ 13 ∉ b ∧ crlfToLf (lfToCrlf b) = b := by
+  refine ⟨_, encode_eq_escStr c good L s hs, ?_, ?_⟩
+  · exact fun hm => hcr (framing_byte_from_text c good L s 13 (by omega) hm)
+  · exact crlf_inverse _ (fun hm => hcr (framing_byte_from_text c good L s 13 (by omega) hm))
+
+/-- LF is encoded as the byte 0x0A by every one of the 14 code pages (the side condition of `strict_reader_lines`) -/
+theorem lf_encodes_itself :
+    (∀ p ∈ sbcsTables, (10 ∈ p.2 ∧ 10 ≠ undef) ∧ (sbcsCodec p.2).enc 10 = some [10])
+    ∧ (∀ T ∈ dbcsTabs, dbcsGood T 10 ∧ (dbcsCodec T).enc 10 = some [10]) := by
+  constructor
+  · intro p hp
+    have hc := List.all_eq_true.mp sbcs_tables_ok p hp
+    have hid := sbcsTableOk_ascii p.2 hc
+    have hget := hid 10 (by omega)
+    have hne : (10 : Nat) ≠ undef := by unfold undef; omega
+    exact ⟨⟨List.mem_of_getElem? hget, hne⟩, by simp [sbcsCodec, hne, idxOf_ascii p.2 hid 10 (by omega)]⟩
+  · have h : dbcsTabs.all (fun T => tabEncKey T.encGood 10 == some 10) = true := by decide +kernel
+    intro T hT
+    have := List.all_eq_true.mp h T hT
+    simp only [beq_iff_eq] at this
+    exact ⟨by simp [dbcsGood, this], by simp [dbcsCodec, dbcsEncWith, this, keyBytes]⟩
+
+/-! ### encoding detection -/
+
+private theorem find?_unique {α : Type} (p : α → Bool) (l : List α) (a : α) (ha : a ∈ l) (hp : p a = true)
+    (hu : ∀ b ∈ l, p b = true → b = a) : l.find? p = some a := by
+  induction l with
+  | nil => cases ha
+  | cons x r ih =>
+    by_cases hx : p x = true
+    · have hxa : x = a := hu x (by simp) hx
+      subst hxa
+      simp [hx]
+    · simp only [List.find?_cons, hx]
+      rcases List.mem_cons.mp ha with rfl | ha'
+      · exact absurd hp hx
+      · exact ih ha' (fun b hb => hu b (List.mem_cons_of_mem _ hb))
+
+/-- every spelling `<anything>` + table key names the key's codec: `ANSI_1252`, `ansi_1252`, `DOS932`, `874`, ...
+    (the `endswith` scan cannot hit another key: no key is a suffix of another) -/
+theorem toencoding_any_prefix (pre : Str) : ∀ p ∈ codepageToEncoding,
+    toencoding codepageToEncoding (pre ++ p.1) = p.2 := by
+  intro p hp
+  unfold toencoding
+  rw [find?_unique (fun q => endsWith (pre ++ p.1) q.1) codepageToEncoding p hp
+    (by simp [endsWith, List.isSuffixOf_iff_suffix])]
+  intro b hb pb
+  simp only [endsWith, List.isSuffixOf_iff_suffix] at pb
+  have pa : p.1 <:+ pre ++ p.1 := List.suffix_append _ _
+  have hsf := table_suffix_free
+  simp only [suffixFreeB, List.all_eq_true, Bool.or_eq_true, Bool.not_eq_true', decide_eq_true_eq] at hsf
+  rcases Nat.le_total b.1.length p.1.length with hl | hl
+  · have := List.suffix_of_suffix_length_le pb pa hl
+    rcases hsf b hb p hp with h | h
+    · rw [← List.isSuffixOf_iff_suffix] at this; rw [this] at h; cases h
+    · exact h
+  · have := List.suffix_of_suffix_length_le pa pb hl
+    rcases hsf p hp b hb with h | h
+    · rw [← List.isSuffixOf_iff_suffix] at this; rw [this] at h; cases h
+    · exact h.symm
+
+/-- the readers' rule on the DXF versions ezdxf knows (tabulated from `const.acad_release` with Python's own string
+    comparison): the code page of $DWGCODEPAGE - in any spelling ending in a table key - up to R2004, UTF-8 from R2007 -/
+theorem detect_encoding_known_versions (pre : Str) : ∀ v ∈ acadVersions, ∀ p ∈ codepageToEncoding,
+    detectEncoding codepageToEncoding v.1 (pre ++ p.1) = (if v.2 then utf8Name else p.2)
+    ∧ detectRecover codepageToEncoding v.1 (pre ++ p.1) = (if v.2 then utf8Name else p.2) := by
+  intro v hv p hp
+  have hall : acadVersions.all (fun v => strLt v.1 ac1021 == !v.2 && !v.1.isEmpty) = true := by decide +kernel
+  have hver : strLt v.1 ac1021 = !v.2 ∧ v.1.isEmpty = false := by
+    have := List.all_eq_true.mp hall v hv
+    simpa only [Bool.and_eq_true, beq_iff_eq, Bool.not_eq_true'] using this
+  unfold detectRecover detectEncoding
+  rw [hver.1, hver.2, toencoding_any_prefix pre p hp]
+  cases v.2 <;> simp
+
+private theorem binName_spec (n rest : Bytes) (hl : 5 ≤ n.length) (hz : ∀ b ∈ n, b ≠ 0) : binName (n ++ 0 :: rest) = n := by
+  unfold binName
+  have h1 : (n ++ 0 :: rest).take 5 = n.take 5 := by
+    rw [List.take_append_of_le_length hl]
+  have h2 : (n ++ 0 :: rest).drop 5 = n.drop 5 ++ 0 :: rest := by
+    rw [List.drop_append_of_le_length hl]
+  have h3 : ∀ (l : Bytes), (∀ b ∈ l, b ≠ 0) → (l ++ 0 :: rest).takeWhile (fun b => b != 0) = l := by
+    intro l
+    induction l with
+    | nil => intro _; simp
+    | cons a l ih =>
+      intro h
+      have ha : a ≠ 0 := h a (by simp)
+      simp [ha, ih (fun b hb => h b (by simp [hb]))]
+  rw [h1, h2, h3 _ (fun b hb => hz b (List.mem_of_mem_drop hb)), List.take_append_drop]
+
+/-- Binary DXF `scan_params`: a $DWGCODEPAGE name `n` (no NUL) followed by its terminator is read back exactly when group
+    codes have two bytes (R13+, `0 :: n`) and `n` has at least five bytes, or when they have one byte (R12) and `n` starts
+    with 'A' and has at least five bytes; an R12 name that does not start with 'A' (e.g. "dos932") loses its first
+    character - harmless for six or more bytes because `toencoding` looks at the suffix only -/
+theorem binScan_spec (n rest : Bytes) (hz : ∀ b ∈ n, b ≠ 0) :
+    (5 ≤ n.length → binScan (0 :: (n ++ 0 :: rest)) = n)
+    ∧ (5 ≤ n.length → n.head? = some 65 → binScan (n ++ 0 :: rest) = n)
+    ∧ (6 ≤ n.length → n.head? ≠ some 65 → binScan (n ++ 0 :: rest) = n.drop 1) := by
+  refine ⟨?_, ?_, ?_⟩
+  · intro hl
+    simp only [binScan, List.head?_cons, Option.some.injEq, Nat.reduceEqDiff, if_false, List.drop_succ_cons, List.drop_zero]
+    exact binName_spec n rest hl hz
+  · intro hl hh
+    have : (n ++ 0 :: rest).head? = some 65 := by
+      cases n with
+      | nil => simp at hl
+      | cons a r => simpa using hh
+    simp only [binScan, this, if_true]
+    exact binName_spec n rest hl hz
+  · intro hl hh
+    cases n with
+    | nil => simp at hl
+    | cons a r =>
+      have ha : ¬ (a = 65) := by simpa using hh
+      have : binScan ((a :: r) ++ 0 :: rest) = binName (r ++ 0 :: rest) := by
+        simp [binScan, ha]
+      rw [this]
+      exact binName_spec r rest (by simp at hl; omega) (fun b hb => hz b (by simp [hb]))
+
+/-! ### end to end: header name -> detected codec -> round trip, for every entry of the source's code page dict -/
+
+/-- R12..R2004 (every version of `const.acad_release` below AC1021): a document with code page `e` writes
+    `$DWGCODEPAGE = tocodepage(e)`, all three readers detect `e` again, and under the codec `e` every plain string (without
+    the listed best-fit characters for cp932/cp950) is written and read back by both readers -/
+theorem legacy_files_end_to_end : ∀ p ∈ codepageToEncoding, ∀ v ∈ acadVersions, v.2 = false →
+    detectEncoding codepageToEncoding v.1 (tocodepage encodingToCodepage p.2) = p.2
+    ∧ detectRecover codepageToEncoding v.1 (tocodepage encodingToCodepage p.2) = p.2
+    ∧ ((∃ q ∈ sbcsTables, q.1 = p.2 ∧ ∀ s, Plain s → RoundTrips (sbcsCodec q.2) handlerFmt s)
+      ∨ (∃ T ∈ dbcsTabs, T.name = p.2 ∧
+          ∀ s, Plain s → (∀ x ∈ s, x ∉ lossyCps T) → RoundTrips (dbcsCodec T) handlerFmt s)) := by
+  intro p hp v hv hleg
+  have hname := (names_bijective.1 p hp).2
+  have hdet := detect_encoding_known_versions ansiPrefix v hv p hp
+  rw [hleg] at hdet
+  simp only [Bool.false_eq_true, if_false] at hdet
+  rw [hname]
+  refine ⟨hdet.1, hdet.2, ?_⟩
+  rcases all_code_pages_covered p hp with ⟨q, hq, hqn⟩ | ⟨T, hT, hTn⟩
+  · left
+    exact ⟨q, hq, hqn, fun s hs => sbcs_roundtrips q.2 (List.all_eq_true.mp sbcs_tables_ok q hq) s hs⟩
+  · right
+    exact ⟨T, hT, hTn, fun s hs hl => dbcs_roundtrips T hT s hs hl⟩
+
+/-- R2007+ (AC1021 and later): whatever $DWGCODEPAGE says the readers use UTF-8, nothing is escaped and every string of
+    Unicode scalar values (all planes) comes back from both readers -/
+theorem modern_files_end_to_end : ∀ v ∈ acadVersions, v.2 = true → ∀ cp : Str,
+    detectEncoding codepageToEncoding v.1 cp = utf8Name ∧ detectRecover codepageToEncoding v.1 cp = utf8Name
+    ∧ ∀ s : Str, (∀ x ∈ s, scalar x) → hasDxfUnicode s = false →
+        ∃ b, encode utf8Codec handlerFmt s = .ok b ∧ decodeDxfUnicode (utf8Codec.dec b) = s
+          ∧ (hasMif s = false → recoverStr (utf8Codec.dec b) = .text s) := by
+  intro v hv hmod cp
+  have hall : acadVersions.all (fun v => strLt v.1 ac1021 == !v.2 && !v.1.isEmpty) = true := by decide +kernel
+  have hver : strLt v.1 ac1021 = !v.2 ∧ v.1.isEmpty = false := by
+    have := List.all_eq_true.mp hall v hv
+    simpa only [Bool.and_eq_true, beq_iff_eq, Bool.not_eq_true'] using this
+  refine ⟨by simp [detectEncoding, hver.1, hmod], by simp [detectRecover, detectEncoding, hver.1, hver.2, hmod], ?_⟩
+  intro s hs hn
+  obtain ⟨b, h1, _, h3, h4⟩ := utf8_identity handlerFmt s hs hn
+  exact ⟨b, h1, h3, h4⟩
+
+/-! ### MIF escapes `\M+kXXXX` (read by the recover loader only) -/
+
+/-- `MIF_CODE_PAGE` as the source has it, resolved through `codecs.lookup`: 1 cp932, 2 cp950, 3 cp949, 5 cp936 = gbk;
+    page 4 is spelled "cp1391" in the source, which is no Python codec (Johab would be cp1361): `\M+4XXXX` is never decoded -/
+theorem mif_pages_as_tabulated :
+    mifCodePage = [(49, cp932Tab.name), (50, cp950Tab.name), (51, cp949Tab.name), (52, []), (53, gbkTab.name)] := by
+  decide +kernel
+
+/-- the recover string branch with the MIF branch spelled out refines `recoverStr` (whose `.mif` was a placeholder) -/
+theorem recover_text_refines (pages : Nat → Option (Bytes → Option Str)) (s : Str) :
+    (∀ t, recoverStr s = .text t → recoverText pages s = t)
+    ∧ (recoverStr s = .mif → recoverText pages s = decodeMifWith pages s) := by
+  unfold recoverStr recoverText
+  cases hasDxfUnicode s <;> cases hasMif s <;> simp
+
+private theorem hexVal_hexDigit (d : Nat) (hd : d < 16) : hexVal? (hexDigit true d) = some d := by
+  unfold hexVal? hexDigit
+  by_cases h : d < 10
+  · have : 48 ≤ 48 + d ∧ 48 + d ≤ 57 := by omega
+    simp [h, this]
+  · have h1 : ¬ (48 ≤ 55 + d ∧ 55 + d ≤ 57) := by omega
+    have h2 : 65 ≤ 55 + d ∧ 55 + d ≤ 70 := by omega
+    simp [h, h1, h2]
+
+private theorem unhex_hexFixed4 (key : Nat) (hk : key < 65536) :
+    unhex (hexFixed true 4 key) = some [key / 256, key % 256] := by
+  rw [hexFixed4]
+  have e1 : key / 4096 % 16 * 16 + key / 256 % 16 = key / 256 := by omega
+  have e2 : key / 16 % 16 * 16 + key % 16 = key % 256 := by omega
+  simp [unhex, hexVal_hexDigit _ (Nat.mod_lt _ (by decide : 16 > 0)), e1, e2]
+
+private theorem mifSplit_nil (lit : Str) : mifSplit lit [] = [lit] := by rw [mifSplit]
+
+/-- a well-formed MIF escape of a defined two-byte sequence is decoded to its character: `\M+1` + hex(lead, trail)
+    under the page's table, for every entry of the regenerated decoders -/
+theorem mif_escape_decoded : ∀ T ∈ dbcsTabs, ∀ (pages : Nat → Option (Bytes → Option Str)) (k : Nat),
+    pages k = some (dbcsDecStrictWith (isLeadB T.leads) (tabLookup T.dec)) → isMifPage k = true →
+    ∀ e ∈ T.dec, 256 ≤ ekey e → ekey e < 65536 →
+    decodeMifWith pages (mifEsc k (ekey e)) = [ecp e] ∧ hasMif (mifEsc k (ekey e)) = true := by
+  intro T hT pages k hpg hk e he h256 h64k
+  have C := Lemmas.EncodingCjk.dbcs_tabs_cert T hT
+  have hl : tabLookup T.dec (ekey e) = some (ecp e) := by
+    unfold tabLookup
+    rw [Lemmas.EncodingCjk.find_of_strict T.dec 0 C.keys e he]; rfl
+  have hlead : isLeadB T.leads (ekey e / 256) = true := by
+    have := List.all_eq_true.mp C.entries e he
+    unfold decEntryOkB at this
+    have hn : ¬ ekey e < 256 := by omega
+    simpa [hn] using this
+  have u1 := upperHex_of_range (hexDigit_range (ekey e / 4096 % 16) (Nat.mod_lt _ (by decide)))
+  have u2 := upperHex_of_range (hexDigit_range (ekey e / 256 % 16) (Nat.mod_lt _ (by decide)))
+  have u3 := upperHex_of_range (hexDigit_range (ekey e / 16 % 16) (Nat.mod_lt _ (by decide)))
+  have u4 := upperHex_of_range (hexDigit_range (ekey e % 16) (Nat.mod_lt _ (by decide)))
+  have hesc : mifEsc k (ekey e) = [92, 77, 43, k, hexDigit true (ekey e / 4096 % 16), hexDigit true (ekey e / 256 % 16),
+      hexDigit true (ekey e / 16 % 16), hexDigit true (ekey e % 16)] := by
+    simp [mifEsc, mifPrefix, hexFixed4]
+  have hat : mifAt (mifEsc k (ekey e)) = true := by
+    rw [hesc]; simp [mifAt, hk, u1, u2, u3, u4]
+  have hdrop : (mifEsc k (ekey e)).drop 4 = hexFixed true 4 (ekey e) := by
+    simp [mifEsc, mifPrefix]
+  have hdec : dbcsDecStrictWith (isLeadB T.leads) (tabLookup T.dec) [ekey e / 256, ekey e % 256] = some [ecp e] := by
+    simp [dbcsDecStrictWith, hlead, Lemmas.EncodingCjk.key_split, hl]
+  have hpart : decodeMifPartWith pages (mifEsc k (ekey e)) = [ecp e] := by
+    unfold decodeMifPartWith
+    rw [hdrop, unhex_hexFixed4 _ h64k]
+    have h3 : (mifEsc k (ekey e))[3]? = some k := by rw [hesc]; rfl
+    have hpre : mifPrefix.isPrefixOf (mifEsc k (ekey e)) = true := by rw [hesc]; simp [mifPrefix, List.isPrefixOf]
+    simp [hpre, h3, hpg, hdec]
+  constructor
+  · unfold decodeMifWith
+    have hsplit : mifSplit [] (mifEsc k (ekey e)) = [[], mifEsc k (ekey e), []] := by
+      have hcons : mifEsc k (ekey e) = 92 :: [77, 43, k, hexDigit true (ekey e / 4096 % 16),
+          hexDigit true (ekey e / 256 % 16), hexDigit true (ekey e / 16 % 16), hexDigit true (ekey e % 16)] := hesc
+      rw [hcons, mifSplit]
+      rw [← hcons]
+      simp only [hat, dite_true]
+      rw [hesc]
+      simp [mifSplit_nil]
+    have hnil : decodeMifPartWith pages [] = [] := by simp [decodeMifPartWith, mifPrefix]
+    rw [hsplit]
+    simp only [List.flatMap_cons, List.flatMap_nil, hpart, hnil, List.nil_append, List.append_nil]
+  · rw [hesc]
+    simp only [hasMif]
+    rw [← hesc, hat]; rfl
+
+private theorem mifSplit_nomatch (s : Str) : ∀ lit, hasMif s = false → mifSplit lit s = [lit ++ s] := by
+  induction s with
+  | nil => intro lit _; simp [mifSplit_nil]
+  | cons x r ih =>
+    intro lit h
+    simp only [hasMif, Bool.or_eq_false_iff] at h
+    rw [mifSplit]
+    simp only [h.1, Bool.false_eq_true, dite_false]
+    rw [ih _ h.2]
+    simp
+
+/-- `decode_mif_to_unicode` leaves every text alone that has no MIF match and does not begin with `\M+` (the only way the
+    startswith quirk of `_decode_mif` can fire without a match) - in particular every text without the three characters `\M+` -/
+theorem decode_mif_plain_text (pages : Nat → Option (Bytes → Option Str)) (s : Str)
+    (hm : hasMif s = false) (hp : mifPrefix.isPrefixOf s = false) : decodeMifWith pages s = s := by
+  unfold decodeMifWith
+  rw [mifSplit_nomatch s [] hm]
+  simp [decodeMifPartWith, hp]
+
+/-- the strict decoder (MIF, `codec.decode(bytes)`) and the surrogateescape decoder (files) of a double-byte page agree
+    wherever the strict one succeeds -/
+theorem dbcs_strict_decoder_agrees (isLead : Nat → Bool) (lookup : Nat → Option Nat) (b : Bytes) (t : Str)
+    (h : dbcsDecStrictWith isLead lookup b = some t) : dbcsDecWith isLead lookup b = t := by
+  induction hn : b.length using Nat.strongRecOn generalizing b t with
+  | _ n ih =>
+    match b, h with
+    | [], h => simp [dbcsDecStrictWith] at h; simp [dbcsDecWith, h]
+    | [b0], h =>
+      simp only [dbcsDecStrictWith] at h
+      by_cases hl : isLead b0 = true
+      · simp [hl] at h
+      · simp only [hl, Bool.false_eq_true, if_false] at h
+        cases hk : lookup b0 with
+        | none => simp [hk] at h
+        | some cp =>
+          simp only [hk, Option.map_some, Option.some.injEq] at h
+          simp [dbcsDecWith, hl, hk, h]
+    | b0 :: b1 :: r, h =>
+      simp only [dbcsDecStrictWith] at h
+      by_cases hl : isLead b0 = true
+      · simp only [hl, if_true] at h
+        cases hk : lookup (b0 * 256 + b1) with
+        | none => simp [hk] at h
+        | some cp =>
+          simp only [hk] at h
+          cases hr : dbcsDecStrictWith isLead lookup r with
+          | none => simp [hr] at h
+          | some t' =>
+            simp only [hr, Option.map_some, Option.some.injEq] at h
+            have := ih r.length (by simp at hn; omega) r t' hr rfl
+            simp [dbcsDecWith, hl, hk, this, h]
+      · simp only [hl, Bool.false_eq_true, if_false] at h
+        cases hk : lookup b0 with
+        | none => simp [hk] at h
+        | some cp =>
+          simp only [hk] at h
+          cases hr : dbcsDecStrictWith isLead lookup (b1 :: r) with
+          | none => simp [hr] at h
+          | some t' =>
+            simp only [hr, Option.map_some, Option.some.injEq] at h
+            have := ih (b1 :: r).length (by simp at hn ⊢; omega) (b1 :: r) t' hr rfl
+            simp [dbcsDecWith, hl, hk, this, h]
+
+/-- the four pages the source can decode are the regenerated tables (definitional unfolding of `mifPages`) -/
+theorem mif_pages_resolve :
+    mifPages dbcsTabs mifCodePage 49 = some (dbcsDecStrictWith (isLeadB cp932Tab.leads) (tabLookup cp932Tab.dec))
+    ∧ mifPages dbcsTabs mifCodePage 50 = some (dbcsDecStrictWith (isLeadB cp950Tab.leads) (tabLookup cp950Tab.dec))
+    ∧ mifPages dbcsTabs mifCodePage 51 = some (dbcsDecStrictWith (isLeadB cp949Tab.leads) (tabLookup cp949Tab.dec))
+    ∧ mifPages dbcsTabs mifCodePage 53 = some (dbcsDecStrictWith (isLeadB gbkTab.leads) (tabLookup gbkTab.dec))
+    ∧ (mifPages dbcsTabs mifCodePage 52).isNone = true := by
+  exact ⟨rfl, rfl, rfl, rfl, rfl⟩
+
+/-- the trail byte 0x5C really occurs in cp932, gbk and cp950 (so the two theorems above are not vacuous), and never in cp949 -/
+theorem backslash_trail_bytes :
+    (∃ e ∈ cp932Tab.encGood, ekey e = 0x955C ∧ ecp e = 0x8868)
+    ∧ (∃ e ∈ gbkTab.encGood, ekey e = 0x815C ∧ ecp e = 0x4E57)
+    ∧ (∃ e ∈ cp950Tab.encGood, ekey e = 0xA55C ∧ ecp e = 0x529F)
+    ∧ cp949Tab.dec.all (fun e => decide (ekey e < 256) || !(ekey e % 256 == 0x5C)) = true := by
+  refine ⟨⟨0x955C * 65536 + 0x8868, ?_, by decide, by decide⟩, ⟨0x815C * 65536 + 0x4E57, ?_, by decide, by decide⟩,
+    ⟨0xA55C * 65536 + 0x529F, ?_, by decide, by decide⟩, by decide +kernel⟩
+  · have : cp932Tab.encGood.elem (0x955C * 65536 + 0x8868) = true := by decide +kernel
+    exact List.mem_of_elem_eq_true this
+  · have : gbkTab.encGood.elem (0x815C * 65536 + 0x4E57) = true := by decide +kernel
+    exact List.mem_of_elem_eq_true this
+  · have : cp950Tab.encGood.elem (0xA55C * 65536 + 0x529F) = true := by decide +kernel
+    exact List.mem_of_elem_eq_true this
+
+/-! ### code points above U+FFFF under a legacy code page (outside the property's BMP quantifier) -/
+
+private theorem hexDigit_lower_lt10 (d : Nat) (hd : d < 10) : hexDigit false d = 48 + d := by simp [hexDigit, hd]
+
+/-- what the code does: `dxf_backslash_replace` writes `\U+%08x`; for planes 1..9 `decode_dxf_unicode` matches the
+    first four digits `000p` and returns the control character U+000p followed by the remaining four hex digits -
+    the character is NOT read back (no theorem of the property covers it: the quantifier is the BMP) -/
+theorem astral_legacy_misdecoded (x : Nat) (h1 : 0x10000 ≤ x) (h2 : x < 0xA0000) :
+    handler handlerFmt [x] = .ok (.str (escPrefix ++ hexFixed false 8 x))
+    ∧ decodeDxfUnicode (escPrefix ++ hexFixed false 8 x) = (x / 65536) :: hexFixed false 4 x := by
+  have e4 : hexFixed false 4 x = [hexDigit false (x / 4096 % 16), hexDigit false (x / 256 % 16),
+      hexDigit false (x / 16 % 16), hexDigit false (x % 16)] := by
+    simp [hexFixed, Nat.div_div_eq_div_mul]
+  have z7 : x / 268435456 % 16 = 0 := by omega
+  have z6 : x / 16777216 % 16 = 0 := by omega
+  have z5 : x / 1048576 % 16 = 0 := by omega
+  have z4 : x / 65536 % 16 = x / 65536 := by omega
+  have hp : x / 65536 < 10 := by omega
+  have e8 : hexFixed false 8 x = 48 :: 48 :: 48 :: (48 + x / 65536) :: hexFixed false 4 x := by
+    rw [e4]
+    simp [hexFixed, Nat.div_div_eq_div_mul, z7, z6, z5, z4, hexDigit_lower_lt10 _ hp]
+    simp [hexDigit]
+  constructor
+  · rw [source_format_fixed]
+    have hfind : fixedFmt.find x = some (.esc escPrefix 8 false) := by
+      have a1 : ¬ x ≤ 56447 := by omega
+      have a2 : (decide (56448 ≤ x) && decide (x ≤ 56575)) = false := by simp; omega
+      have a3 : (decide (56576 ≤ x) && decide (x ≤ 65535)) = false := by simp; omega
+      have a4 : (decide (65536 ≤ x) && decide (x ≤ 1114111)) = true := by simp; omega
+      simp [Fmt.find, fixedFmt, List.find?, a1, a2, a3, a4]
+    have hlen : pyHex false 8 x = hexFixed false 8 x := by
+      unfold pyHex hexLen
+      have : x.log2 / 4 + 1 ≤ 8 := by
+        have : x.log2 < 20 := (Nat.log2_lt (by omega)).mpr (by omega)
+        omega
+      rw [Nat.max_eq_left this]
+    simp [handler, handlerLoop, hfind, hlen]
+  · rw [e8]
+    have hm : matchAt (92 :: 85 :: 43 :: 48 :: 48 :: 48 :: (48 + x / 65536) :: hexFixed false 4 x)
+        = some (hexFixed false 4 x) := by
+      apply matchAt_mk <;> simp [isUpperHex] <;> omega
+    have hlit : hasDxfUnicode (hexFixed false 4 x) = false := by
+      rw [e4]; simp [hasDxfUnicode, matchAt]
+    have hv : upperHexVal (48 + x / 65536) = x / 65536 := by
+      unfold upperHexVal
+      have : 48 + x / 65536 ≤ 57 := by omega
+      simp [this]
+    have hpart : decodePart [92, 85, 43, 48, 48, 48, 48 + x / 65536] = [x / 65536] := by
+      have hm0 : matchAt [92, 85, 43, 48, 48, 48, 48 + x / 65536] = some [] := by
+        apply matchAt_mk <;> simp [isUpperHex] <;> omega
+      unfold decodePart
+      rw [hm0]
+      simp only [hv]
+      simp [upperHexVal]
+    unfold decodeDxfUnicode
+    simp only [escPrefix, List.cons_append, List.nil_append]
+    rw [reSplit_match _ _ _ _ hm, reSplit_lit _ [] hlit]
+    simp only [List.take, List.flatMap_cons, List.flatMap_nil, List.nil_append, List.append_nil]
+    rw [hpart, decodePart_lit _ hlit]
+    simp [decodePart, matchAt]
+
+private theorem hexFixed8_lower (x : Nat) :
+    hexFixed false 8 x = [hexDigit false (x / 268435456 % 16), hexDigit false (x / 16777216 % 16),
+      hexDigit false (x / 1048576 % 16), hexDigit false (x / 65536 % 16), hexDigit false (x / 4096 % 16),
+      hexDigit false (x / 256 % 16), hexDigit false (x / 16 % 16), hexDigit false (x % 16)] := by
+  simp [hexFixed, Nat.div_div_eq_div_mul]
+
+/-- plane 16 (U+100000..U+10FFFF): the digits `0010` match, the result starts with U+0010 -/
+theorem astral_legacy_misdecoded_plane16 (x : Nat) (h1 : 0x100000 ≤ x) (h2 : x ≤ 0x10FFFF) :
+    decodeDxfUnicode (escPrefix ++ hexFixed false 8 x) = 16 :: hexFixed false 4 x := by
+  have e4 : hexFixed false 4 x = [hexDigit false (x / 4096 % 16), hexDigit false (x / 256 % 16),
+      hexDigit false (x / 16 % 16), hexDigit false (x % 16)] := by
+    simp [hexFixed, Nat.div_div_eq_div_mul]
+  have z7 : x / 268435456 % 16 = 0 := by omega
+  have z6 : x / 16777216 % 16 = 0 := by omega
+  have z5 : x / 1048576 % 16 = 1 := by omega
+  have z4 : x / 65536 % 16 = 0 := by omega
+  have e8 : hexFixed false 8 x = 48 :: 48 :: 49 :: 48 :: hexFixed false 4 x := by
+    rw [hexFixed8_lower, e4, z7, z6, z5, z4]; simp [hexDigit]
+  rw [e8]
+  have hm : matchAt (92 :: 85 :: 43 :: 48 :: 48 :: 49 :: 48 :: hexFixed false 4 x) = some (hexFixed false 4 x) := by
+    apply matchAt_mk <;> simp [isUpperHex]
+  have hlit : hasDxfUnicode (hexFixed false 4 x) = false := by
+    rw [e4]; simp [hasDxfUnicode, matchAt]
+  have hpart : decodePart [92, 85, 43, 48, 48, 49, 48] = [16] := by decide
+  unfold decodeDxfUnicode
+  simp only [escPrefix, List.cons_append, List.nil_append]
+  rw [reSplit_match _ _ _ _ hm, reSplit_lit _ [] hlit]
+  simp only [List.take, List.flatMap_cons, List.flatMap_nil, List.nil_append, List.append_nil]
+  rw [hpart, decodePart_lit _ hlit]
+  simp [decodePart, matchAt]
+
+/-- planes 10..15 (U+A0000..U+FFFFF): the fourth digit is a lower case letter, nothing matches, the escape text stays -/
+theorem astral_legacy_left_as_text (x : Nat) (h1 : 0xA0000 ≤ x) (h2 : x < 0x100000) :
+    decodeDxfUnicode (escPrefix ++ hexFixed false 8 x) = escPrefix ++ hexFixed false 8 x := by
+  apply decode_nomatch
+  have z4 : 10 ≤ x / 65536 % 16 := by omega
+  have hd : hexDigit false (x / 65536 % 16) = 87 + x / 65536 % 16 := by
+    have : ¬ (x / 65536 % 16 < 10) := by omega
+    simp [hexDigit, this]
+  have hnu : isUpperHex (87 + x / 65536 % 16) = false := by simp [isUpperHex]; omega
+  have hne : ∀ d, d < 16 → hexDigit false d ≠ 92 := by
+    intro d hd; unfold hexDigit; split <;> simp <;> omega
+  have n1 := hne (x / 268435456 % 16) (Nat.mod_lt _ (by decide))
+  have n2 := hne (x / 16777216 % 16) (Nat.mod_lt _ (by decide))
+  rw [hexFixed8_lower, hd]
+  simp [escPrefix, hasDxfUnicode, matchAt, hnu, n1, n2]
+
+/-- summary: no code point above U+FFFF written under a legacy code page is read back (outside the BMP quantifier of
+    the property; R2007+ files are not affected, see `utf8_identity`) -/
+theorem astral_legacy_never_roundtrips (x : Nat) (h1 : 0x10000 ≤ x) (h2 : x ≤ 0x10FFFF) :
+    decodeDxfUnicode (escPrefix ++ hexFixed false 8 x) ≠ [x] := by
+  intro h
+  have hlen := congrArg List.length h
+  by_cases c1 : x < 0xA0000
+  · rw [(astral_legacy_misdecoded x h1 c1).2] at hlen
+    simp [hexFixed] at hlen
+  · by_cases c2 : x < 0x100000
+    · rw [astral_legacy_left_as_text x (by omega) c2] at hlen
+      simp [hexFixed, escPrefix] at hlen
+    · rw [astral_legacy_misdecoded_plane16 x (by omega) h2] at hlen
+      simp [hexFixed] at hlen
+
+/-- the recover branch too: `<trail 5C>M+1XXXX` is not a MIF escape after the code page was decoded -/
+theorem trail_backslash_is_not_a_mif_escape : ∀ T ∈ dbcsTabs, ∀ (pages : Nat → Option (Bytes → Option Str)) (x k a b c d : Nat),
+    dbcsGood T x → x ≠ 92 → isMifPage k = true →
+    isUpperHex a = true → isUpperHex b = true → isUpperHex c = true → isUpperHex d = true →
+    recoverText pages ((dbcsCodec T).dec (encAll (dbcsCodec T) [x, 77, 43, k, a, b, c, d])) = [x, 77, 43, k, a, b, c, d] := by
+  intro T hT pages x k a b c d hx hne hk ha hb hc hd
+  have L := dbcs_tables_lawful T hT
+  have hex : ∀ z, isUpperHex z = true → dbcsGood T z := by
+    intro z hz
+    simp only [isUpperHex, decide_eq_true_eq] at hz
+    exact (L.ascii z (by omega) (by omega)).1
+  have hkg : dbcsGood T k := by
+    simp only [isMifPage, decide_eq_true_eq] at hk
+    exact (L.ascii k (by omega) (by omega)).1
+  have hg : ∀ y ∈ [x, 77, 43, k, a, b, c, d], dbcsGood T y := by
+    intro y hy
+    simp only [List.mem_cons, List.not_mem_nil, or_false] at hy
+    rcases hy with rfl | rfl | rfl | rfl | rfl | rfl | rfl | rfl
+    · exact hx
+    · exact (L.ascii 77 (by omega) (by omega)).1
+    · exact (L.ascii 43 (by omega) (by omega)).1
+    · exact hkg
+    · exact hex _ ha
+    · exact hex _ hb
+    · exact hex _ hc
+    · exact hex _ hd
+  rw [L.dec_enc _ hg]
+  have h1 : hasDxfUnicode [x, 77, 43, k, a, b, c, d] = false := by simp [hasDxfUnicode, matchAt, hne]
+  have h2 : hasMif [x, 77, 43, k, a, b, c, d] = false := by simp [hasMif, mifAt, hne]
+  simp [recoverText, h1, h2]
+
 /-! ## non-vacuity: concrete values meet the hypotheses and the statements compute -/
 
 -- "x€ä" under cp1251 with the fixed handler: € = 0x88 is encodable, ä is escaped, and decoded again
@@ -1287,6 +2316,55 @@ example : hasDxfUnicode [92, 85, 43, 48, 48, 52, 49] = true := by decide
 -- `Lawful` is inhabited for a real code page table
 example : Lawful (sbcsCodec cp1252Table) (fun x => x ∈ cp1252Table ∧ x ≠ undef) :=
   sbcs_lawful cp1252Table (by decide +kernel)
+-- Session 3 ------------------------------------------------------------------------------------------------
+-- `Plain` is met by a string with `\U+` text, non-encodable and encodable characters
+example : Plain [92, 85, 43, 120, 0x20AC, 0xE4, 0x8868, 85, 43, 48, 48, 52, 49] :=
+  ⟨by decide, by decide⟩
+-- cp932: U+8868 is written 95 5C (trail byte = backslash); followed by "U+0041" the FILE contains `\U+0041`
+#guard (dbcsCodec cp932Tab).enc 0x8868 == some [0x95, 0x5C]
+#guard encode (dbcsCodec cp932Tab) fixedFmt [0x8868, 85, 43, 48, 48, 52, 49] == .ok [0x95, 92, 85, 43, 48, 48, 52, 49]
+-- both readers return the text (the code page is decoded before the escape search) ...
+#guard decodeDxfUnicode ((dbcsCodec cp932Tab).dec [0x95, 92, 85, 43, 48, 48, 52, 49]) == [0x8868, 85, 43, 48, 48, 52, 49]
+#guard recoverStr ((dbcsCodec cp932Tab).dec [0x95, 92, 85, 43, 48, 48, 52, 49]) == .text [0x8868, 85, 43, 48, 48, 52, 49]
+-- ... whereas the same bytes read with the WRONG code page contain an escape and are altered (the classic bug class)
+#guard decodeDxfUnicode ((sbcsCodec cp1252Table).dec [0x95, 92, 85, 43, 48, 48, 52, 49]) == [0x2022, 65]
+-- gbk and cp950 have trail byte 0x5C too, cp949 has not
+#guard (dbcsCodec gbkTab).enc 0x4E57 == some [0x81, 0x5C]
+#guard (dbcsCodec cp950Tab).enc 0x529F == some [0xA5, 0x5C]
+#guard cp949Tab.dec.all (fun e => ekey e % 256 != 0x5C || ekey e < 256)
+#guard (dbcsCodec cp932Tab).dec [0x95, 0x5C, 0x41, 0xB1, 0x81] == [0x8868, 0x41, 0xFF71, 0xDC81]
+-- a best-fit character is written unescaped and read back as another one (known finding F15): the exclusion is needed
+#guard (dbcsCodec cp932Tab).enc 0xA2 == some [0x81, 0x91]
+#guard (dbcsCodec cp932Tab).dec [0x81, 0x91] == [0xFFE0]
+-- a character no double-byte page has is escaped and comes back
+#guard decodeDxfUnicode ((dbcsCodec gbkTab).dec ((encode (dbcsCodec gbkTab) fixedFmt [0x4E57, 0x0E01, 92]).toOption.getD [])) == [0x4E57, 0x0E01, 92]
+-- the sizes of the regenerated tables (decoder entries, faithful encoder entries)
+#guard (cp932Tab.dec.length, cp932Tab.encGood.length) == (9800, 9402)
+#guard (gbkTab.dec.length, gbkTab.encGood.length) == (21919, 21919)
+#guard (cp949Tab.dec.length, cp949Tab.encGood.length) == (17176, 17176)
+#guard (cp950Tab.dec.length, cp950Tab.encGood.length) == (13880, 13870)
+-- single-byte tables: an undefined byte (0x81 in cp1252) and a defined one survive bytes -> str -> bytes
+#guard (sbcsCodec cp1252Table).dec [0x41, 0x80, 0x81] == [0x41, 0x20AC, 0xDC81]
+#guard encode (sbcsCodec cp1252Table) fixedFmt [0x41, 0x20AC, 0xDC81] == .ok [0x41, 0x80, 0x81]
+-- astral character under a legacy code page: written `\U+0001f600`, read back as U+0001 "f600"
+#guard encode asciiCodec fixedFmt [0x1F600] == .ok [92, 85, 43, 48, 48, 48, 49, 102, 54, 48, 48]
+#guard decodeDxfUnicode [92, 85, 43, 48, 48, 48, 49, 102, 54, 48, 48] == [1, 102, 54, 48, 48]
+-- MIF: `\M+5D7DF` (cp936 = gbk) is U+8D70; page 4 is left alone; a part that merely starts with `\M+1` is converted too (quirk)
+#guard decodeMifWith (mifPages dbcsTabs mifCodePage) [92, 77, 43, 53, 68, 55, 68, 70] == [0x8D70]
+#guard decodeMifWith (mifPages dbcsTabs mifCodePage) [92, 77, 43, 52, 68, 55, 68, 70] == [92, 77, 43, 52, 68, 55, 68, 70]
+#guard decodeMifWith (mifPages dbcsTabs mifCodePage) [92, 77, 43, 49, 52, 49] == [65]
+#guard recoverText (mifPages dbcsTabs mifCodePage) [42, 92, 77, 43, 53, 68, 55, 68, 70, 42] == [42, 0x8D70, 42]
+example : isMifPage 53 = true := by decide
+-- framing: two values in one cp932 "file", the first one ends with the trail byte 0x5C, the second needs an escape
+#guard (splitOn 10 ((dbcsCodec cp932Tab).dec ((encode (dbcsCodec cp932Tab) fixedFmt (joinSep 10 [[0x8868], [65, 0x20AC]])).toOption.getD []))).map decodeDxfUnicode == [[0x8868], [65, 0x20AC], []]
+#guard splitOn 0 (joinSep 0 [[0x95, 0x5C], [65]]) == [[0x95, 0x5C], [65], []]
+#guard splitOn 10 [1, 10, 10, 2] == [[1], [], [2]]
+example : ([65, 67, 49, 48, 49, 53], false) ∈ acadVersions ∧ ([65, 67, 49, 48, 50, 49], true) ∈ acadVersions := by decide
+-- byte level line end conversion: cp932 U+8868 = 95 5C, LF -> CRLF -> LF
+#guard crlfToLf (lfToCrlf [0x95, 0x5C, 10, 65, 10]) == [0x95, 0x5C, 10, 65, 10]
+#guard lfToCrlf [65, 10] == [65, 13, 10]
+#guard crlfToLf [13, 13, 10, 13] == [13, 10, 13]
+example : hasMif [65, 92, 77, 43, 49, 52, 49] = false ∧ mifPrefix.isPrefixOf [65, 92, 77, 43, 49, 52, 49] = false := by decide
 -- the name tables are not empty
 example : toencoding codepageToEncoding [65, 78, 83, 73, 95, 57, 51, 54] = [103, 98, 107] := by decide
 example : tocodepage encodingToCodepage [103, 98, 107] = [65, 78, 83, 73, 95, 57, 51, 54] := by decide
